@@ -9,7 +9,7 @@ from . import VERIF, REPO
 from .index import AnalysisError, get_repo
 
 KNOWN_FILE = os.path.join(VERIF, "KNOWN_FINDINGS.txt")
-EVIDENCE_DIR = os.path.join(VERIF, "evidence")
+EVIDENCE_DIR = os.environ.get("VERIF_EVIDENCE_DIR") or os.path.join(VERIF, "evidence")
 
 
 class Report:
